@@ -65,12 +65,20 @@ type scenario struct {
 	Exec  int `json:"exec"` // 0 sync 1 async
 	Rep   int `json:"rep"`
 	NotFound bool `json:"loader_reports_not_found"` // the load ends with "not found" instead of a value
+	Prelude  int  `json:"prelude,omitempty"`          // history before the scenario: 1/2 = a BulkGet whose loader volunteered that many unrequested keys, 3 = a failed load
+	Expire   bool `json:"written_entry_expires,omitempty"` // expiry configured; the clock passes the written entry's deadline before the loader returns
 }
 
 func (s scenario) String() string {
 	out := ""
 	if s.NotFound {
 		out = ", loader reports not-found"
+	}
+	if s.Prelude != 0 {
+		out += fmt.Sprintf(", prelude %d", s.Prelude)
+	}
+	if s.Expire {
+		out += ", the written entry expires before the loader returns"
 	}
 	return fmt.Sprintf("%s, %s %s (executor %d%s)", loadKindNames[s.Load], writeKindNames[s.Write], posNames[s.Pos], s.Exec, out)
 }
@@ -111,15 +119,46 @@ func runScenario(s scenario) (out scenOut) {
 			}()
 		}
 	}
+	var clk *phaseClock
+	if s.Expire {
+		clk = &phaseClock{tick: make(chan time.Time)}
+		clk.now.Store(1_000_000_000)
+		o.Clock = clk
+		o.ExpiryCalculator = otter.ExpiryWriting[int, int](time.Minute)
+	}
 	c, err := otter.New(o)
 	if err != nil {
 		out.inconclusive = err.Error()
 		return
 	}
 	defer c.StopAllGoroutines()
+	// a history before the scenario (other keys): the bookkeeping of in-flight loads must not depend on it
+	switch s.Prelude {
+	case 1, 2:
+		extra := s.Prelude
+		c.BulkGet(context.Background(), []int{100}, otter.BulkLoaderFunc[int, int](func(ctx context.Context, keys []int) (map[int]int, error) {
+			m := map[int]int{}
+			for _, kk := range keys {
+				m[kk] = 7
+			}
+			for i := 1; i <= extra; i++ {
+				m[100+i] = 7
+			}
+			return m, nil
+		}))
+	case 3:
+		c.Get(context.Background(), 100, otter.LoaderFunc[int, int](func(ctx context.Context, key int) (int, error) {
+			return 0, errLoaderFailed
+		}))
+	}
+	wg.Wait()
 	if present {
 		c.Set(k, v0)
-		time.Sleep(2 * time.Microsecond) // the entry is stale after 1 ns
+		if clk != nil {
+			clk.now.Add(2)
+		} else {
+			time.Sleep(2 * time.Microsecond) // the entry is stale after 1 ns
+		}
 	}
 	loadFn := func() (int, error) {
 		if loaderIn.CompareAndSwap(false, true) {
@@ -211,15 +250,22 @@ func runScenario(s scenario) (out scenOut) {
 	case wkSet, wkComputeWrite, wkSetIfAbsent, wkComputeIfAbsent, wkComputeIfPresentWrite:
 		wantPresent, wantV = true, vS
 	}
+	expire := func() {
+		if clk != nil {
+			clk.now.Add(int64(2 * time.Minute)) // the written entry's deadline passes; nothing sweeps it
+		}
+	}
 	switch s.Pos {
 	case posDuringLoader:
 		write()
+		expire()
 		close(release)
 	case posBeforeInstall:
 		close(release)
 		select {
 		case <-atInstall:
 			write()
+			expire()
 			close(relInst)
 		case <-done:
 			// the installation never passed the yield point (nothing to install)
@@ -268,6 +314,9 @@ func runScenario(s scenario) (out scenOut) {
 		out.violation = fmt.Sprintf("the cache holds the loaded value %d although the key was explicitly written (%s) after the load had started; expected %s",
 			vL, writeKindNames[s.Write], map[bool]string{true: fmt.Sprintf("value %d", wantV), false: "no entry"}[wantPresent])
 		return
+	}
+	if s.Expire {
+		return // the written entry has expired by now: all that matters is that the load did not come back
 	}
 	if wantPresent && (!ok || e.Value != wantV) {
 		out.violation = fmt.Sprintf("after %s the key should hold %d but holds (%d, present=%v)", writeKindNames[s.Write], wantV, e.Value, ok)
@@ -585,7 +634,7 @@ func RunC09(col *core.Collector, tier, variant string, seed uint64, shard, nshar
 						if idx%nshards != shard {
 							continue
 						}
-						s := scenario{Load: l, Write: w, Pos: p, Exec: ex % 2, Rep: rep, NotFound: ex >= 2}
+						s := scenario{Load: l, Write: w, Pos: p, Exec: ex % 2, Rep: rep, NotFound: ex >= 2, Prelude: rep % 4, Expire: (rep/4)%2 == 1 && p != posRacing}
 						out := runScenario(s)
 						col.Eval(1)
 						progress.Add(1)
